@@ -1175,6 +1175,18 @@ def place_type_str(prog, body, place):
 # =====================================================================================================
 # polarity of a boolean function built from one predicate call
 # =====================================================================================================
+def bool_const_cmp(rv):
+    """`x == false` / `x != true` (sign -1) and `x == true` / `x != false` (sign +1) as (operand x, sign); None for anything else"""
+    if rv.get("k") != "bin" or rv.get("op") not in ("Eq", "Ne"):
+        return None
+    for a, b in ((rv["l"], rv["r"]), (rv["r"], rv["l"])):
+        if b.kind == "const" and (b.const or {}).get("ty") == "bool" and a.place is not None and a.place.is_local():
+            is_true = (b.const.get("val") == "true")
+            return a, (1 if (rv["op"] == "Eq") == is_true else -1)
+    return None
+
+
+
 def bool_polarity(body, pv, pred):
     """body returns a bool computed from the result p of a call for which pred(callee) holds.
     Returns (+1 | -1 | None, callee term | None):  +1: returns p,  -1: returns !p."""
@@ -1203,6 +1215,11 @@ def bool_polarity(body, pv, pred):
                 r = val(rv["o"].place.local, depth + 1)
                 if r is not None:
                     r = (-r[0], r[1])
+            elif bool_const_cmp(rv) is not None:
+                o_, sg_ = bool_const_cmp(rv)
+                r = val(o_.place.local, depth + 1)
+                if r is not None:
+                    r = (sg_ * r[0], r[1])
             else:
                 return None
             if r is None:
@@ -1472,6 +1489,10 @@ def positive_edges(body, pv, call_bb):
                 elif rv["k"] == "un" and rv["op"] == "Not" and rv["o"].place is not None:
                     sign = -sign
                     l = rv["o"].place.local
+                elif bool_const_cmp(rv) is not None:
+                    o_, sg_ = bool_const_cmp(rv)
+                    sign = sign * sg_
+                    l = o_.place.local
                 elif rv["k"] == "discr" and not [e for e in rv["place"].fields() if e != "*"]:
                     via_discr = True
                     l = rv["place"].local
@@ -2559,8 +2580,11 @@ def wrapper_findings(prog, file_rx=r".*"):
         bi, t, flds = on_self[0]
         m = t.callee.method
         nots = [st for pos, st in b.stmts() if st.k == "assign" and st.rv["k"] == "un" and st.rv["op"] == "Not"]
+        # `x == false` / `x != true` negate as well (`x == true` / `x != false` do not and are no comparison of two values)
+        bool_cmps = [st for pos, st in b.stmts() if st.k == "assign" and bool_const_cmp(st.rv) is not None]
+        nots += [st for st in bool_cmps if bool_const_cmp(st.rv)[1] == -1]
         ariths = [st for pos, st in b.stmts() if st.k == "assign" and st.rv["k"] == "bin" and st.rv["op"] not in ("Eq", "Ne", "Lt", "Le", "Gt", "Ge")]
-        cmps = [st for pos, st in b.stmts() if st.k == "assign" and st.rv["k"] == "bin" and st.rv["op"] in ("Eq", "Ne", "Lt", "Le", "Gt", "Ge")]
+        cmps = [st for pos, st in b.stmts() if st.k == "assign" and st.rv["k"] == "bin" and st.rv["op"] in ("Eq", "Ne", "Lt", "Le", "Gt", "Ge") and not any(st is x for x in bool_cmps)]
         rec = {"body": b, "name": b.name, "owner": owner, "fields": flds, "line": t.line, "method": m}
         if b.name == "is_empty" and m in ("len", "count") and len(cmps) == 1 and not nots:
             c = cmps[0]
@@ -3434,6 +3458,15 @@ def check_comparison_impls(ck, rule, prog, file_rx, floor=0):
         if not seen:
             continue
         n += 1
+        if b.name == "eq" and not b.natural_loops():
+            # an `eq` that answers through ONE comparison answers with its un-negated equality (or its negated inequality)
+            cmp_calls = [(bi_, t_) for bi_, t_ in b.calls() if t_.callee.method in ("eq", "ne") and len(t_.args) == 2]
+            cmp_bins = [st_ for _, st_ in b.stmts() if st_.k == "assign" and st_.rv["k"] == "bin" and st_.rv["op"] in ("Eq", "Ne") and bool_const_cmp(st_.rv) is None]
+            if len(cmp_calls) == 1 and not cmp_bins:
+                pol_, ct_ = bool_polarity(b, pv, lambda c_: c_ is cmp_calls[0][1].callee)
+                if pol_ is not None:
+                    says_equal = (cmp_calls[0][1].callee.method == "eq") == (pol_ == 1)
+                    ck.ob(rule, "eq-polarity/%s" % b.short, says_equal, "%s answers %s when its comparison finds the two sides equal" % (b.short, "true" if says_equal else "FALSE (the equality is negated)"), where=b.where(cmp_calls[0][1].line))
         ck.ob(rule, "self-vs-other/%s" % b.short, not bad, "%s: %s" % (b.short, "each of its %d comparison(s) takes one operand from each side" % seen if not bad else
               "the comparison `%s` (line %s) takes BOTH operands from `%s`: it answers the same for every pair, so records that agree in the keys compared before it are equal to the collection" % (bad[0][2], bad[0][1], b.local_name(bad[0][3]))),
               where=(bad[0][0] if bad else b).where(bad[0][1] if bad else None))
@@ -3584,4 +3617,106 @@ def check_secondary_index(ck, rule, prog, adt_rx):
                     else:
                         ck.ob(rule, "index/%s.%s/%s/%d" % (short, xn, b.short, bi), ok, "%s writes an entry of the index `%s` (-> key of `%s`) %s" % (b.short, xn, pn,
                               "only where a record is inserted into `%s`" % pn if ok else "on a path where NO record is inserted into `%s` (the key may already be there under another name): the index then names a record that does not carry that name" % pn), where=b.where(t.line))
+    return n
+
+
+# =====================================================================================================
+# OPTIONAL: `fn f(&self) -> Option<..> { if <nothing to report> { None } else { Some(self.f) } }`
+# =====================================================================================================
+def _test_edges(body, pv):
+    """the two-way tests of a body as dicts {kind: 'empty'|'equal', 'same': [edges on which the collection is EMPTY / the operands are EQUAL],
+    'diff': [edges of the opposite outcome], 'ops': operands, 'line'}.  Sources: `is_empty()` calls, `eq` / `ne` calls, primitive == / !=."""
+    out = []
+    for bi, t in body.calls():
+        m = t.callee.method
+        if m == "is_empty" and len(t.args) == 1:
+            pos = set(positive_edges(body, pv, bi))
+            sw = {e[0] for e in pos}
+            neg = {(sb, tg) for sb in sw for tg in body.succ[sb] if (sb, tg) not in pos}
+            if pos:
+                out.append({"kind": "empty", "same": pos, "diff": neg, "ops": [t.args[0]], "line": t.line, "bb": bi})
+        elif m in ("eq", "ne") and len(t.args) == 2 and (t.callee.trait or "").endswith("PartialEq"):
+            pos = set(positive_edges(body, pv, bi))
+            sw = {e[0] for e in pos}
+            neg = {(sb, tg) for sb in sw for tg in body.succ[sb] if (sb, tg) not in pos}
+            if pos:
+                out.append({"kind": "equal", "same": pos if m == "eq" else neg, "diff": neg if m == "eq" else pos, "ops": list(t.args), "line": t.line, "bb": bi})
+    for c in compare_switches(body, pv):
+        if any(o.kind == "const" and (o.const or {}).get("ty") == "bool" for o in (c["l"], c["r"])):
+            continue  # `x == false`: a negation of x (read by positive_edges), not a comparison of two values
+        if c["op"] in ("Eq", "Ne") and c["true_tg"] is not None and c["false_tg"] is not None:
+            te, fe = {(c["bb"], c["true_tg"])}, {(c["bb"], c["false_tg"])}
+            out.append({"kind": "equal", "same": te if c["op"] == "Eq" else fe, "diff": fe if c["op"] == "Eq" else te, "ops": [c["l"], c["r"]], "line": c["line"], "bb": c["bb"]})
+    return out
+
+
+def _self_paths(body, pv, op):
+    """field paths (tuples of names) below parameter 1 that an operand is read from"""
+    return {tuple(e[1] for e in a[3] if e and e[0] == "f") for a in pv.of_operand(body, op) if a[0] == "param" and a[1] == body.id and a[2] == 1}
+
+
+def check_optional_accessors(ck, rule, prog, file_rx, adt_rx, floor=0):
+    """accessors `fn f(&self) -> Option<..>` of the types in `adt_rx` that answer `None` when there is nothing to report and `Some(<field>)`
+    otherwise: the test reads the field that is handed out (its emptiness, or the equality of its TWO components), and `None` stands on the
+    empty / equal side."""
+    from prov import Prov
+    pv = Prov(prog, inline=False)
+    n = 0
+    for b in sorted(prog.production(), key=lambda z: z.id):
+        if b.kind != "AssocFn" or b.nargs != 1 or not re.search(file_rx, b.file or "") or not b.impl_self or not re.search(adt_rx, b.impl_self.get("adt") or "") or b.impl_trait:
+            continue
+        if not b.locals[0]["s"].startswith("std::option::Option<") or b.natural_loops():
+            continue
+        nones = [bi for bi in sorted(b.reach) for st in b.blocks[bi].stmts if st.k == "assign" and st.place.is_local() and st.place.local == 0 and st.rv["k"] == "agg" and st.rv.get("variant") == "None"]
+        somes = [(bi, st) for bi in sorted(b.reach) for st in b.blocks[bi].stmts if st.k == "assign" and st.place.is_local() and st.place.local == 0 and st.rv["k"] == "agg" and st.rv.get("variant") == "Some"]
+        if len(nones) != 1 or len(somes) != 1:
+            continue
+        payload = _self_paths(b, pv, somes[0][1].rv["ops"][0])
+        pf = {p[0] for p in payload if p}
+        if len(pf) != 1:
+            continue
+        field = next(iter(pf))
+        tests = [t for t in _test_edges(b, pv) if any(e[1] == nones[0] or b.edge_dominates(e, nones[0]) for e in t["same"] | t["diff"])]
+        if len(tests) != 1:
+            continue
+        t = tests[0]
+        n += 1
+        read = [_self_paths(b, pv, o) for o in t["ops"]]
+        fields_read = {p[0] for ps in read for p in ps if p}
+        none_on_same = any(e[1] == nones[0] or b.edge_dominates(e, nones[0]) for e in t["same"]) and not any(e[1] == nones[0] or b.edge_dominates(e, nones[0]) for e in t["diff"])
+        problems = []
+        if fields_read != {field}:
+            problems.append("the test reads `%s`, the value handed out is `%s`" % ("/".join(sorted(fields_read)) or "?", field))
+        if t["kind"] == "equal":
+            comps = [{p[1] for p in ps if len(p) > 1} for ps in read]
+            if len(comps) == 2 and comps[0] == comps[1] and len(comps[0]) == 1:
+                problems.append("both sides of the comparison are component `%s` (always equal)" % next(iter(comps[0])))
+        if not none_on_same:
+            problems.append("`None` stands on the side where the field is %s" % ("NOT empty" if t["kind"] == "empty" else "DIFFERENT"))
+        ck.ob(rule, "optional/%s" % b.short, not problems, "%s answers None %s" % (b.short, ("exactly when `%s` %s" % (field, "is empty" if t["kind"] == "empty" else "has two equal components")) if not problems else "wrongly: " + "; ".join(problems)), where=b.where(t["line"]))
+    if floor:
+        ck.floor(rule, "Option-valued accessors of the delta types", n, floor, soft=True)
+    return n
+
+
+def check_change_decision(ck, rule, prog, body, label):
+    """a constructor `-> Option<Self>` that answers `Some(..)` when ANY of several component tests finds a difference: from the `differs` edge of
+    each component test the `None` result is no longer reachable (the tests are OR-ed, none of them is AND-ed with a later one)."""
+    from prov import Prov
+    pv = Prov(prog, inline=False)
+    nones = [bi for bi in sorted(body.reach) for st in body.blocks[bi].stmts if st.k == "assign" and st.place.is_local() and st.place.local == 0 and st.rv["k"] == "agg" and st.rv.get("variant") == "None"]
+    somes = [bi for bi in sorted(body.reach) for st in body.blocks[bi].stmts if st.k == "assign" and st.place.is_local() and st.place.local == 0 and st.rv["k"] == "agg" and st.rv.get("variant") == "Some"]
+    if not nones or not somes:
+        ck.undecided(rule, "decision/%s" % label, "%s: no None / Some result pair recognised" % body.short, where=body.where())
+        return 0
+    n = 0
+    for t in sorted(_test_edges(body, pv), key=lambda x: x["line"]):
+        reach_same = set().union(*[body.reachable_from(e[1]) | {e[1]} for e in t["same"]]) if t["same"] else set()
+        reach_diff = set().union(*[body.reachable_from(e[1]) | {e[1]} for e in t["diff"]]) if t["diff"] else set()
+        if not (reach_same & set(nones)) or not ((reach_same | reach_diff) & set(somes)):
+            continue  # not one of the tests that decide between None and Some
+        n += 1
+        bad = bool(reach_diff & set(nones))
+        ck.ob(rule, "decision/%s/test@%d" % (label, n), not bad, "%s: once the test in line %s finds a difference the result %s" % (body.short, t["line"], "is Some(..)" if not bad else
+              "can still be None (the test is AND-ed with a later one): an item that differs only in this component is not reported"), where=body.where(t["line"]))
     return n
